@@ -1092,15 +1092,16 @@ class CTRFileIO(_CryptoFileBase):
     def read(self, size: int = -1) -> bytes:
         with self._lock:
             cur_offset = self.tell()
-            data = self._reader.read(size)
             cipher = self._current_cipher
             if not cipher or self._current_cipher_encrypts:
+                # the cipher comes first: if the keyslot has no key, nothing has been consumed from the file yet
                 counter = self._counter + (cur_offset >> 4)
                 cipher = self._crypto.create_ctr_cipher(self._keyslot, counter)
                 # beginning padding
                 cipher.decrypt(b'\0' * (cur_offset % 0x10))
                 self._current_cipher = cipher
                 self._current_cipher_encrypts = False
+            data = self._reader.read(size)
             return cipher.decrypt(data)
 
     @_raise_if_file_closed
@@ -1138,11 +1139,12 @@ class TWLCTRFileIO(CTRFileIO):
     def read(self, size: int = -1) -> bytes:
         with self._lock:
             cur_offset = self.tell()
+            counter = self._counter + (cur_offset >> 4)
+            # the cipher comes first: if the keyslot has no key, nothing has been consumed from the file yet
+            cipher = self._crypto.create_ctr_cipher(self._keyslot, counter)
             data = self._reader.read(size)
             padding_before = cur_offset % 0x10
             padding_after = (-(padding_before + len(data)) % 0x10)
-            counter = self._counter + (cur_offset >> 4)
-            cipher = self._crypto.create_ctr_cipher(self._keyslot, counter)
             data = (b'\0' * padding_before) + data + (b'\0' * padding_after)
             return cipher.decrypt(data)[padding_before:len(data) - padding_after]
 
@@ -1211,7 +1213,12 @@ class CBCFileIO(_CryptoFileBase):
                 self._reader.seek(-len(data_after), 1)
             else:
                 data_after = b''
-            cipher = self._crypto.create_cbc_cipher(self._keyslot, iv)
+            try:
+                cipher = self._crypto.create_cbc_cipher(self._keyslot, iv)
+            except KeyslotMissingError:
+                # nothing is returned, so nothing may have been consumed
+                self._reader.seek(offset)
+                raise
             # decrypt data, and cut off extra bytes
             return cipher.decrypt(
                 b''.join((data_before, data_requested, data_after))
